@@ -4,6 +4,9 @@ CONSTANTS
   MaxTargets = 2
   MaxCorr = 2
   CorrKinds = {"sigOtherKey", "sigFlip", "keySubst", "sigSwap", "tweakRemove", "wrongRoot"}
+  Shapes = {"longTail"}
+  MaxShape = 0
+  ShapeWithCorr = FALSE
   TweakChoice = {"plain", "tweaked"}
 INVARIANT Agree
 INVARIANT EmitB
